@@ -739,6 +739,8 @@ class Models:
             s = M.as_slice(c.I, c.st, c.args[0])
             if s is None:
                 raise AnalysisIncomplete(f"iter on {c.args[0]!r}")
+            if s.elem[0] == 'vals' and s.len.is_const() and s.off.is_const() and s.len.c <= 8 and s.base[0] == 'cfields':
+                return VOpaque(c.dty, 'iter', (s, 0))       # exact iteration over a concrete short sequence
             return VOpaque(c.dty, 'iter', (s,))
 
         @reg('std::iter::Iterator::take')
@@ -815,6 +817,14 @@ class Models:
             itref = c.args[0]
             it = M.deref(c.I, c.st, itref)
             st = c.st
+            if isinstance(it, VOpaque) and it.tag == 'iter' and len(it.data) == 2:
+                sl, pos = it.data
+                if pos >= sl.len.c:
+                    return M.none(c.dty)
+                e = sl.elem[1].elems[sl.off.c + pos]
+                if isinstance(itref, VRef):
+                    c.I.store(st, itref.root, itref.path, VOpaque(it.ty, 'iter', (sl, pos + 1)))
+                return M.some(c.dty, VRef(('val', e)))
             if isinstance(it, VOpaque) and it.tag == 'iter':
                 sl = it.data[0]
                 out = [(st.copy(), M.none(c.dty))]
@@ -841,6 +851,13 @@ class Models:
                         e = M.iter_elem(c.I, s3, sl, idx.form)
                         out.append((s3, M.some(c.dty, VTuple([idx, VRef(('val', e))]))))
                 return out
+            if isinstance(it, VOpaque) and it.tag == 'range' and it.data[0].form.is_const() and it.data[1].form.is_const() \
+                    and it.data[1].form.c - it.data[0].form.c <= 8 and isinstance(itref, VRef):
+                s_, e_ = it.data
+                if s_.form.c >= e_.form.c:
+                    return M.none(c.dty)
+                c.I.store(st, itref.root, itref.path, VOpaque(it.ty, 'range', (VInt(s_.form.addc(1), s_.ty), e_)))
+                return M.some(c.dty, s_)
             if isinstance(it, VOpaque) and it.tag == 'range':
                 s_, e_ = it.data
                 out = [(st.copy(), M.none(c.dty))]
@@ -873,7 +890,23 @@ class Models:
         @reg('std::fmt::Write::write_str', 'std::fmt::Write::write_char', 'std::fmt::Write::write_fmt',
              "std::fmt::Formatter::<'a>::write_fmt")
         def wr(c):
-            c.I.events.append(('write', c.c['decl'].split('::')[-1], c.args[1] if len(c.args) > 1 else None, c.st))
+            kind = c.c['decl'].split('::')[-1]
+            if not any(k.startswith('format::write_u32') for _, k in c.st.stack):
+                a = c.args[1] if len(c.args) > 1 else None
+                if kind == 'write_char' and isinstance(a, VInt):
+                    lo, hi = c.st.num.rng(a.form)
+                    d = ('char', lo if lo == hi else None)
+                elif kind == 'write_str' and isinstance(a, VSlice):
+                    b = a.base
+                    if isinstance(b, tuple) and b and b[0] == 'tbl':
+                        d = ('tbl', b[1], Form(b[2][0], b[2][1]))
+                    elif isinstance(b, tuple) and b and b[0] == 'cstr':
+                        d = ('cstr', b[1])
+                    else:
+                        d = ('str', None)
+                else:
+                    d = (kind, None)
+                c.st.notes['writes'] = c.st.notes.get('writes', ()) + (d,)
             return c.I.top(c.st, c.dty, 'wr', assume_inv=False)
 
         @reg("core::fmt::rt::Argument::<'_>::new_display", "std::fmt::Arguments::<'a>::new",
@@ -922,6 +955,9 @@ class Models:
             a = M.deref(c.I, c.st, c.args[0])
             d = c.c.get('def', '')
             if 'StackVec' in d:
+                if isinstance(a, VOpaque) and a.tag == 'stackvec_c':
+                    arr = VArray(list(a.data), 'format::Field')
+                    return VSlice(('cfields', id(a)), Form.const(0), Form.const(len(a.data)), ('vals', arr), 'format::Field')
                 if isinstance(a, VOpaque) and a.tag == 'stackvec':
                     ety = c.c['args'][0]
                     m = re.match(r'stack_buf::StackVec<(.*), (\d+)>$', ety)
